@@ -662,6 +662,9 @@ class Manager:
 
         for event_handler in event_handlers:
             event.handler = event_handler
+            # a handler that is interrupted (KeyboardInterrupt, SystemExit)
+            # has no result: the previous handler's must not be collected again
+            value = None
             try:
                 value = event_handler(event, *eargs, **ekwargs) if event_handler.event else event_handler(*eargs, **ekwargs)
             except KeyboardInterrupt:
